@@ -648,6 +648,9 @@ func directPath() string { return filepath.Join(vf.Root, ".build", "c17-direct.j
 func build(tier string) *enum {
 	e := &enum{bytes: byteStrings(), views: viewCases(), directOK: map[string]bool{}}
 	for _, name := range mrun.Names() {
+		if !tables.Has(name) {
+			continue // a model newer than the tables: not enumerated (reported by pre)
+		}
 		desc := sim.Catalog[name]().Description()
 		if hasDims(desc) {
 			continue // table-valued parameters cannot be expressed in a request
@@ -737,6 +740,10 @@ func pre(tier string, r *vf.Rec) {
 	ok := map[string]bool{}
 	crashes := 0
 	for _, name := range mrun.Names() {
+		if !tables.Has(name) {
+			r.Note("catalogued_model_without_a_table/"+name, "not enumerated: /verif/tables has no parameter vectors and alphabet for it (the model was added after the tables were written)")
+			continue
+		}
 		desc := sim.Catalog[name]().Description()
 		if hasDims(desc) {
 			continue
@@ -763,7 +770,7 @@ func pre(tier string, r *vf.Rec) {
 func Spec() *vf.Check {
 	return &vf.Check{
 		ID: "C17", Level: "exploration", BlockSize: 64, Sub: sub, Pre: pre,
-		Rule: "(i) for each of the 39 models with scalar parameters: parameters in {none, all, each one alone, all + an unknown name, reversed order} x inputs in {all, each one missing, all missing, each one longer, each one shorter, an unknown extra (same length last; longer first; longer last), reversed order, the largest finite / smallest positive values in every series} x T in {1,3} x splitOutputs: the answer is compared with a direct one-cell run (defaults / zeros, log lines), error cases must be answered with exactly one JSON document that describes the problem; " +
+		Rule: "(i) for each of the 39 tabulated models with scalar parameters: parameters in {none, all, each one alone, all + an unknown name, reversed order} x inputs in {all, each one missing, all missing, each one longer, each one shorter, an unknown extra (same length last; longer first; longer last), reversed order, the largest finite / smallest positive values in every series} x T in {1,3} x splitOutputs: the answer is compared with a direct one-cell run (defaults / zeros, log lines), error cases must be answered with exactly one JSON document that describes the problem; " +
 			"(ii) every byte string of length <= 3 over {{}}[]\":,1-ena\\ and space, and every single-byte deletion / substitution / truncation of three valid requests: no panic, exactly one JSON document, a description when nothing ran; (iii) JsonSafeArray over every depth-1 view (steps 1,2) of float64 roots [4],[2,3],[2,2,3] with NaN/+Inf/-Inf planted x every shiftDim. distinct_nontrivial = cases answered as required.",
 		Assumptions: []string{"requests whose parameters make the DIRECT run itself crash inside the model kernel (e.g. GR4J with all parameters defaulted to 0) are outside the statement and skipped; which ones is determined by running the direct run in a fresh process (counter parameter_shapes_whose_direct_run_crashes)",
 			"models with table-valued parameters (Storage, RatingCurvePartition) cannot be configured through the request format and are not enumerated in (i)"},
